@@ -149,7 +149,10 @@ KEYS = {1: [0, 1, 2], 2: [0, 2, 1, 3], 3: [0, 3, 1, 4], 19: [0, 19, 1, 20, 5]}
 CORPUS = ["explore 19 2 8000 i:19:1 i:0:5,e:19|D", "explore 19 2 8000 i:1:1 i:0:5,e:1|D", "explore 19 2 8000 i:0:1 i:1:5,e:0|D",
           "explore 2 2 20000 i:1:1 i:0:5,e:1|D|C", "explore 2 3 20000 i:0:1 i:2:5|e:0,i:4:1", "explore 1 2 20000 i:0:1 i:2:5|e:0,i:4:1|f:2",
           "explore 1 3 20000 i:1:1,i:3:3 i:2:2|e:1|f:3", "explore 2 2 20000 i:0:1 E|e:0,i:1:1", "explore 3 2 20000 i:0:1,i:1:1 C|i:2:2|E",
-          "explore 2 2 20000 - i:0:1,i:1:2|i:1:3,i:0:4", "explore 19 2 8000 i:0:1,i:19:2 e:0|e:19|f:19", "explore 3 3 20000 i:0:1 D|D|e:0,i:1:1"]
+          "explore 2 2 20000 - i:0:1,i:1:2|i:1:3,i:0:4", "explore 19 2 8000 i:0:1,i:19:2 e:0|e:19|f:19", "explore 3 3 20000 i:0:1 D|D|e:0,i:1:1",
+          # whole-map queries against a writer that fills a bucket already scanned and then empties one not yet scanned
+          "explore 2 2 20000 i:1:1 E|i:0:5,e:1", "explore 3 2 20000 i:2:1 E|i:0:5,e:2", "explore 19 2 8000 i:18:1 E|i:0:5,e:18",
+          "explore 2 2 20000 i:1:1 D|i:0:5,e:1", "explore 3 2 20000 i:2:1 E|i:1:5,e:2|f:1"]
 
 
 def gen_explore(chk):
